@@ -145,6 +145,9 @@ impl<'a> Gen<'a> {
         if obs == "panic" {
             *self.stats.entry("obs:panic".into()).or_insert(0) += 1;
         }
+        if obs == "timeout" {
+            *self.stats.entry("obs:timeout".into()).or_insert(0) += 1;
+        }
     }
 
     fn fresh(&mut self) -> u64 {
@@ -903,7 +906,10 @@ pub fn generate(seed: u64, first: usize, n: usize, prof_name: &str, out: &mut dy
             }
             let _ = writeln!(out, "#resume {}", k + 1);
             let _ = out.flush();
-            std::process::exit(3);
+            // a stuck thread (blocked / deadlocked call): the first one is evidence enough, the
+            // rest of the shard would only wait for more timeouts
+            let stuck = stats.get("obs:timeout").copied().unwrap_or(0) > 0;
+            std::process::exit(if stuck { 4 } else { 3 });
         }
         orch.shutdown();
     }
